@@ -136,6 +136,14 @@ def _job(args):
                     ("include+glob, file exclusions as regex", dict(exclude_external_libraries=False, external_exclusions=glob, exclusions=(), regex_exclusions=("zzzzNEVERzzzz",)), True, rx),
                     ("include+regex, file exclusions as glob", dict(exclude_external_libraries=False, regex_external_exclusions=user_rx, exclusions=("*zzzzNEVERzzzz*",)), True, user_rx),
                 ]
+                # a FILE exclusion pattern that textually matches the dotted name of an external module (and no path of the tree):
+                # file patterns are about paths, an external module is not a path - same architecture as "include" alone
+                xt = rng.choice(["logging.handlers", "xml.etree.ElementTree", "os.path", "projx.y", "loggingx", "Logging.Handlers", "os", "xml.etree"])
+                if rng.random() < 0.5:
+                    configs.append(("include + a file exclusion (glob) that matches an external module's name", dict(exclude_external_libraries=False, exclusions=("*" + xt if "." in xt else xt,)), True, ()))
+                else:
+                    configs.append(("include + a file exclusion (regex) that matches an external module's name",
+                                    dict(exclude_external_libraries=False, exclusions=(), regex_exclusions=((".*" if "." in xt else "") + re.escape(xt) + "$",)), True, ()))
                 internal_views = []
                 enc = rules.Enc()
                 cases, metas = [], []
